@@ -49,7 +49,12 @@ impl Out {
         writeln!(self.f, "{}", v).unwrap();
         self.n += 1;
     }
-    pub fn finish(mut self) { self.f.flush().unwrap(); }
+    /// writes the end marker: a run whose file carries it delivered all its cases (a crash while the
+    /// process tears down live database instances afterwards does not invalidate them)
+    pub fn finish(mut self) {
+        writeln!(self.f, "{}", serde_json::json!({"end": true, "n": self.n})).unwrap();
+        self.f.flush().unwrap();
+    }
 }
 /// optional second argument: a replay file (a case's "meta" as written into a replay)
 pub fn replay_arg() -> Option<serde_json::Value> {
